@@ -33,7 +33,7 @@ def run(ctx):
     sub = {'quick': 4, 'thorough': 60}[ctx.tier]
     for drv in (w_alg.drive_composite, w_alg.drive_embed, w_alg.drive_merge, w_alg.drive_mask,
                 w_alg.drive_forwards):
-        ctx.deadline = time.time() + sub
+        ctx.deadline = ctx.clock() + sub
         drv(ctx, ctx.tier)
     ctx.deadline = saved
     monitor.disable_all()
